@@ -26,6 +26,9 @@ RULE_TEXT = "one obligation per (metric function, mirrored pair or symmetric sco
 def _fm_args(s, rule, qual):
     """(precision term, recall term) = the two positional arguments of the util.f_measure call."""
     c = [x for x in s.calls() if x.callee == "util.f_measure"]
+    if len(c) > 1:
+        # util.f_measure(0, 0) on a degenerate exit: one literal for both sides has no orientation
+        c = [x for x in c if not (len(x.args) >= 2 and x.args[0] is x.args[1] and is_lit(x.args[0]))]
     need(len(c) == 1 and len(c[0].args) >= 2, rule, "%s: single util.f_measure(precision, recall) call not found" % qual)
     return c[0].args[0], c[0].args[1], c[0]
 
